@@ -9,6 +9,7 @@ import (
 	"io"
 	"sort"
 	"sync"
+	"time"
 
 	"github.com/kubewharf/kubebrain/pkg/backend/coder"
 	"github.com/kubewharf/kubebrain/pkg/storage"
@@ -81,6 +82,7 @@ type Store struct {
 	DelFault    func(proc string, nth int, e Event) string     // "", "err", "cas", "die"
 	IterFault   func(proc string, iter int, nth int) error     // nil => none: error returned by the nth Next of an iterator
 	GetFault    func(proc string) error                        // nil => none: error returned by a point lookup
+	TsoFault    func() error                                   // nil => none: error returned by the engine's timestamp oracle
 	BeforeRun   func()                                         // called right before a batch reaches the engine
 	commitN     int
 	delN        int
@@ -90,6 +92,72 @@ type Store struct {
 	LogReads bool
 	// IsCompactor tells whether the named process runs compaction (its Next calls are gates).
 	IterNextGate bool
+	// TrackAbandoned (free-running drivers only): the wrapper hands a batch to the engine only when it is committed, so a batch
+	// that the code begins and then drops would never reach the engine at all. With this set, a goroutine that begins a batch while
+	// its previous one was never committed makes the wrapper do what the engine would have seen -- one BeginBatchWrite that is
+	// never committed -- and then asks the engine, with a deadline, whether it still answers. An engine that does not (memkv holds
+	// its store lock from BeginBatchWrite to Commit) is recorded as wedged and every later call on it fails at once.
+	TrackAbandoned bool
+	obmu           sync.Mutex
+	openBatch      map[int64]*batchW
+}
+
+var wedgedMu sync.Mutex
+var wedged = map[storage.KvStorage]bool{}
+
+// ErrWedged is the answer of the wrapper for an engine that was found not to answer any more.
+var ErrWedged = errors.New("engine does not answer (a batch was begun and never committed)")
+
+// Wedged tells whether the engine under this wrapper was found not to answer.
+func (s *Store) Wedged() bool {
+	wedgedMu.Lock()
+	defer wedgedMu.Unlock()
+	return wedged[s.Inner]
+}
+
+// IsWedged tells whether the engine was found not to answer.
+func IsWedged(inner storage.KvStorage) bool {
+	wedgedMu.Lock()
+	defer wedgedMu.Unlock()
+	return wedged[inner]
+}
+
+// CheckAbandoned looks for batches that were begun by a goroutine and not committed (call it between requests of a sequential
+// driver: no batch is in flight then), and treats each as abandoned.
+func (s *Store) CheckAbandoned() {
+	if !s.TrackAbandoned {
+		return
+	}
+	s.obmu.Lock()
+	n := 0
+	for g, b := range s.openBatch {
+		if !b.committed {
+			n++
+		}
+		delete(s.openBatch, g)
+	}
+	s.obmu.Unlock()
+	for ; n > 0 && !s.Wedged(); n-- {
+		s.abandoned()
+	}
+}
+
+func (s *Store) abandoned() {
+	_ = s.Inner.BeginBatchWrite() // what the engine would have received from the code
+	done := make(chan struct{})
+	go func() {
+		s.Inner.BeginBatchWrite().Commit(context.Background())
+		close(done)
+	}()
+	select {
+	case <-done:
+		s.Rec.Log(Event{"e": "AbandonedBatch", "wedged": false})
+	case <-time.After(3 * time.Second):
+		wedgedMu.Lock()
+		wedged[s.Inner] = true
+		wedgedMu.Unlock()
+		s.Rec.Log(Event{"e": "AbandonedBatch", "wedged": true})
+	}
 }
 
 var _ storage.KvStorage = (*Store)(nil)
@@ -180,6 +248,12 @@ func ErrClass(err error) string { return errClass(err) }
 // GetTimestampOracle implements storage.KvStorage.
 func (s *Store) GetTimestampOracle(ctx context.Context) (uint64, error) {
 	s.gate("kv.ts")
+	if tf := s.TsoFault; tf != nil {
+		if err := tf(); err != nil {
+			s.Rec.Log(Event{"e": "Note", "what": "the engine's timestamp oracle fails: " + err.Error()})
+			return 0, err
+		}
+	}
 	return s.Inner.GetTimestampOracle(ctx)
 }
 
@@ -229,6 +303,9 @@ func (s *Store) GetPartitions(ctx context.Context, start, end []byte) ([]storage
 
 // Get implements storage.KvStorage.
 func (s *Store) Get(ctx context.Context, key []byte) ([]byte, error) {
+	if s.TrackAbandoned && s.Wedged() {
+		return nil, ErrWedged
+	}
 	s.gate("kv.get")
 	p := s.proc()
 	s.fmu.Lock()
@@ -328,6 +405,9 @@ var iterSeqMu sync.Mutex
 
 // Iter implements storage.KvStorage.
 func (s *Store) Iter(ctx context.Context, start, end []byte, ts uint64, limit uint64) (storage.Iter, error) {
+	if s.TrackAbandoned && s.Wedged() {
+		return nil, ErrWedged
+	}
 	s.gate("kv.iter")
 	p := s.proc()
 	s.Rec.Mu.Lock()
@@ -378,6 +458,9 @@ func (s *Store) DelCurrent(ctx context.Context, it storage.Iter) error {
 }
 
 func (s *Store) del(ctx context.Context, key []byte, it storage.Iter) error {
+	if s.TrackAbandoned && s.Wedged() {
+		return ErrWedged
+	}
 	p := s.proc()
 	e := Event{"e": "Del", "p": p}
 	if it != nil {
@@ -435,14 +518,31 @@ func (s *Store) del(ctx context.Context, key []byte, it storage.Iter) error {
 
 // batchW buffers the operations of a write batch; the real batch is built inside Commit.
 type batchW struct {
-	st  *Store
-	ops []func(b storage.BatchWrite)
-	evs []Event
-	ks  [][]byte
+	committed bool
+	st        *Store
+	ops       []func(b storage.BatchWrite)
+	evs       []Event
+	ks        [][]byte
 }
 
 // BeginBatchWrite implements storage.KvStorage.
-func (s *Store) BeginBatchWrite() storage.BatchWrite { return &batchW{st: s} }
+func (s *Store) BeginBatchWrite() storage.BatchWrite {
+	b := &batchW{st: s}
+	if s.TrackAbandoned {
+		gid := curGID()
+		s.obmu.Lock()
+		if s.openBatch == nil {
+			s.openBatch = map[int64]*batchW{}
+		}
+		prev := s.openBatch[gid]
+		s.openBatch[gid] = b
+		s.obmu.Unlock()
+		if prev != nil && !prev.committed && !s.Wedged() {
+			s.abandoned()
+		}
+	}
+	return b
+}
 
 func (b *batchW) add(o string, key []byte, f func(bw storage.BatchWrite)) Event {
 	e := Event{"o": o}
@@ -482,6 +582,10 @@ func (b *batchW) DelCurrent(it storage.Iter) {
 
 func (b *batchW) Commit(ctx context.Context) error {
 	s := b.st
+	b.committed = true
+	if s.Wedged() {
+		return ErrWedged
+	}
 	s.gate("kv.commit")
 	p := s.proc()
 	s.fmu.Lock()
